@@ -86,9 +86,11 @@ func vPut(c *Cache[byte], locus []byte, model []vEnt, minPB int) ([]vEnt, bool) 
 	k, v := vByte(), vByte()
 	now := vTimeNZ()
 	exp := vTimeOrZero()
-	evicted, _ := c.Update([]byte{k}, func(e Entry[byte], exists bool) Entry[byte] {
-		return Entry[byte]{Key: []byte{k}, Value: v, CreatedAt: now, ExpiresAt: exp}
+	kb := []byte{k}
+	evicted, _ := c.Update(kb, func(e Entry[byte], exists bool) Entry[byte] {
+		return Entry[byte]{Key: kb, Value: v, CreatedAt: now, ExpiresAt: exp}
 	})
+	kb[0] ^= 0xFF // callers (e.g. the DHT handlers) reuse their key buffers: the cache must own its keys
 	if c.max == 0 {
 		return model, evicted == nil
 	}
@@ -248,7 +250,7 @@ func VH_C18_cacheFullBuckets() bool {
 // keys, values and instants: deeper than cacheOps' 3 free operations at a fraction of the paths.
 var vScripts = [5]string{"PPDE", "PPEE", "PDPE", "PEPE", "PPEP"}
 
-//verif: unwind=24 cover=evicted,deleted,expired map_perm_max=1 bounds="locus 0..1 bytes, max 1..3, minPerBucket 0, five fixed 4-operation scripts (PPDE PPEE PDPE PEPE PPEP) with symbolic 1-byte keys, values and 3-bit instants"
+// verif: unwind=24 cover=evicted,deleted,expired map_perm_max=1 bounds="locus 0..1 bytes, max 1..3, minPerBucket 0, five fixed 4-operation scripts (PPDE PPEE PDPE PEPE PPEP) with symbolic 1-byte keys, values and 3-bit instants"
 func VH_C18_cacheScripts() bool {
 	locus := vBytes(1)
 	max := vInt(1, 3)
